@@ -47,9 +47,10 @@ def _mc(ctx, tag, expect=None, **kw):
                        env=JVM_SMALL if expect else JVM_BIG)
 
 
-def _gen(ctx, tag, cex=False, simulate=None, depth=None, **kw):
+def _gen(ctx, tag, cex=False, simulate=None, depth=None, split=False, **kw):
     s = _sub(**kw)
     s["CEX"] = "TRUE" if cex else "FALSE"
+    s["SPLIT"] = "TRUE" if split else "FALSE"
     s["INV"] = kw.get("INV", "TypeOK")
     r = lib.run_tlc(ctx, "ReplayCacheGen", "ReplayCacheGen.cfg", s, tag=tag, simulate=simulate, depth=depth,
                     workers=1 if simulate else 4, timeout=1500, env=JVM_SMALL)
@@ -67,16 +68,16 @@ def run(ctx):
     def submit(name, fn, *a, **kw):
         jobs[name] = pool.submit(fn, ctx, name, *a, **kw)
 
-    # ---- 1. model checking ---------------------------------------------------------------------------
+    # ---- 1. model checking (the cleaner is CleanBegin / CleanVisit* / CleanEnd, time passes in between) --------
     if q:
-        submit("mc_faithful", _mc)                                            # W=2 R=4 H=8, 2 packets, 4 presentations, 2 cleans
-        submit("mc_tight_holds", _mc, R=2, H=6)
+        submit("mc_faithful", _mc, H=6)                                       # W=2 R=4, 2 packets, 4 presentations, 2 sweeps
+        submit("mc_tight_holds", _mc, R=2, H=4)
     else:
         submit("mc_faithful", _mc, H=9, MP=5)
-        submit("mc_faithful_3p", _mc, NP=3, H=6, MP=4)
+        submit("mc_faithful_3p", _mc, NP=3, H=4, MP=4)
         submit("mc_tight_holds", _mc, R=2, H=8)
-        submit("mc_w3_faithful", _mc, W=3, R=6, SK=2, H=9)
-        submit("mc_w3_tight_holds", _mc, W=3, R=4, SK=2, H=9)
+        submit("mc_w3_faithful", _mc, W=3, R=6, SK=2, H=8)
+        submit("mc_w3_tight_holds", _mc, W=3, R=4, SK=2, H=8)
         submit("neg_w3_retention_short", _mc, "AtMostOnce", W=3, R=3, SK=2, H=9, INV="TypeOK AtMostOnce")
         # client clocks ahead by the whole window: the stamp is refused and consumed first, never accepted twice
         submit("mc_skew_w", _mc, SK=2, INV="TypeOK AtMostOnce")
@@ -84,31 +85,40 @@ def run(ctx):
     submit("neg_cleaner_purges_all", _mc, "AtMostOnce", DEV='{"CleanerPurgesAll"}', INV="TypeOK AtMostOnce")
     submit("neg_cache_key_raw", _mc, "AtMostOnce", DEV='{"CacheKeyRaw"}', INV="TypeOK AtMostOnce")
     submit("neg_retention_short", _mc, "AtMostOnce", R=1, INV="TypeOK AtMostOnce")
+    submit("neg_cleaner_snapshot_swap", _mc, "AtMostOnce", DEV='{"CleanerSnapshotSwap"}', INV="TypeOK AtMostOnce")
+    submit("neg_check_then_register", _mc, "AtMostOnce", DEV='{"CheckThenRegister"}', INV="TypeOK AtMostOnce")
 
     # ---- 2. histories --------------------------------------------------------------------------------
     small = dict(NP=1, H=3, MP=3, MC=2)
     if q:
         submit("bfs_r4", _gen, INV="TypeOK AtMostOnce", **small)                        # every in-window interplay
-        submit("bfs_r2_evict", _gen, INV="TypeOK AtMostOnce", R=2, NP=1, H=4, MP=3, MC=1)  # presentation after eviction
-        sims = [("sim_r4", 4, 300), ("sim_r3", 3, 200), ("sim_r2", 2, 300)]
+        submit("bfs_r2_evict", _gen, INV="TypeOK AtMostOnce", R=2, NP=1, H=4, MP=2, MC=1)  # presentation after eviction
+        submit("bfs_split", _gen, INV="TypeOK AtMostOnce", split=True, NP=1, H=3, MP=3, MC=1)  # time passes inside the sweep
+        sims = [("sim_r4", 4, 250), ("sim_r3", 3, 150), ("sim_r2", 2, 250)]
     else:
         submit("bfs_r4", _gen, INV="TypeOK AtMostOnce", NP=1, H=3, MP=4, MC=2)              # 25 872 histories
         submit("bfs_r4_evict", _gen, INV="TypeOK AtMostOnce", NP=1, H=6, MP=3, MC=1)        # 12 096
         submit("bfs_r2_evict", _gen, INV="TypeOK AtMostOnce", R=2, NP=1, H=4, MP=3, MC=2)   #  9 864
         submit("bfs_2p", _gen, INV="TypeOK AtMostOnce", NP=2, H=2, MP=3, MC=1)              # 43 728
+        submit("bfs_split", _gen, INV="TypeOK AtMostOnce", split=True, R=2, NP=1, H=4, MP=3, MC=1)   # 10 920
+        submit("bfs_split_2p", _gen, INV="TypeOK AtMostOnce", split=True, NP=2, H=1, MP=3, MC=1)     # 18 144
         sims = [("sim_r4", 4, 3000), ("sim_r3", 3, 1500), ("sim_r2", 2, 3000)]
     for name, r_, num in sims:
         submit(name, _gen, INV="TypeOK AtMostOnce", R=r_, simulate=num, depth=60)
+    submit("sim_split", _gen, INV="TypeOK AtMostOnce", split=True, simulate=sims[0][2] // 2, depth=80)
     # every counter-example history of the deviating models (bounded) - replayed on the code as well
     submit("cex_cleaner_purges_all", _gen, cex=True, DEV='{"CleanerPurgesAll"}', **small)
     submit("cex_cache_key_raw", _gen, cex=True, DEV='{"CacheKeyRaw"}', NP=1, H=3, MP=3, MC=1)
     submit("cex_retention_short", _gen, cex=True, R=1, NP=1, H=4, MP=3, MC=2)
+    # a presentation in the gap between the sweep's snapshot and its swap (needs a second block to be lost)
+    submit("cex_snapshot_swap_2p", _gen, cex=True, split=True, DEV='{"CleanerSnapshotSwap"}', NP=2, H=1, MP=3, MC=1)
     if not q:
         submit("cex_cleaner_purges_all_2p", _gen, cex=True, DEV='{"CleanerPurgesAll"}', NP=2, H=2, MP=3, MC=1)
         submit("cex_cache_key_raw_2p", _gen, cex=True, DEV='{"CacheKeyRaw"}', NP=2, H=2, MP=3, MC=0)
 
     # the stress run needs no model output: start it now, next to TLC
-    stress_f = pool.submit(lib.run_go, ctx, "server", "TestVerifC08Stress", None, 1500)
+    stress_f = pool.submit(lib.run_go, ctx, "server", "TestVerifC08(Stress|SweepStress)", None, 1500, None, False,
+                           "TestVerifC08Stress")
 
     res = {}
     for name, f in jobs.items():
@@ -165,10 +175,13 @@ def run(ctx):
                 gs.get("presentations", 0), gs.get("replay_attempts_in_window", 0),
                 gs.get("mismatch", 0), gs.get("nc_diff", 0), gs.get("why_diff", 0),
                 gs.get("clean_steps", 0), gs.get("clean_steps_evicting", 0)))
-    ctx.log("variants still authenticating on their own: %d; gate held %d/%d; stress rounds %s" % (
-        gs.get("variants_still_authenticating", 0), gs.get("gate_held", 0),
-        gs.get("gate_held", 0) + gs.get("gate_second_passed_while_first_parked", 0),
-        {k: v for k, v in st.get("stats", {}).items() if k.startswith("stress_rounds")}))
+    ctx.log("presentations that arrived while the real sweep was parked: %d (%d queued on the lock, %d ran during the sweep)" % (
+        gs.get("early_presentations", 0), gs.get("early_queued_on_lock", 0), gs.get("early_ran_during_sweep", 0)))
+    ctx.log("variants still authenticating on their own: %d; gate: %d schedule points x %d rounds, second presenter waited "
+            "%d / returned %d; stress rounds %s" % (
+                gs.get("variants_still_authenticating", 0), gs.get("gate_points", 0), gs.get("gate_rounds", 0),
+                gs.get("gate_second_waited", 0), gs.get("gate_second_returned_while_first_parked", 0),
+                {k: v for k, v in st.get("stats", {}).items() if "stress_rounds" in k}))
     reproduced = sum(v for k, v in gs.items() if k.startswith("cex_reproduced:"))
     if reproduced and not ctx.violations:
         raise lib.Inconclusive("counter-examples reproduced without a recorded violation")
